@@ -27,6 +27,9 @@ def neg (p : Poly) : Poly := p.map (fun t => (-t.1, t.2))
 def sub (p q : Poly) : Poly := add p (neg q)
 def smul (c : Rat) (p : Poly) : Poly := p.map (fun t => (c * t.1, t.2))
 def sum (ps : List Poly) : Poly := ps.flatten
+/-- product (term by term; exponent vectors are added componentwise) -/
+def mul (p q : Poly) : Poly :=
+  p.flatMap (fun s => q.map (fun t => (s.1 * t.1, List.zipWith (· + ·) s.2 t.2)))
 def const (dim : Nat) (c : Rat) : Poly := [(c, List.replicate dim 0)]
 
 def monoEval : List Rat → Mono → Rat
@@ -81,6 +84,9 @@ def checkCurl3 (vals : List (List Poly)) (curls : List (List Poly)) (tol : Rat) 
     Poly.close (Poly.sub ((f 2).pderiv 1) ((f 1).pderiv 2)) (vc.2.getD 0 []) tol &&
     Poly.close (Poly.sub ((f 0).pderiv 2) ((f 2).pderiv 0)) (vc.2.getD 1 []) tol &&
     Poly.close (Poly.sub ((f 1).pderiv 0) ((f 0).pderiv 1)) (vc.2.getD 2 []) tol)
+
+/-- every listed function has total degree ≤ `n` (`Element.maxdeg`) -/
+def checkDeg (vals : List Poly) (n : Nat) : Bool := vals.all (fun v => Poly.degLe v n)
 
 /-- nodal duality: `φ_i(x_j) = δ_ij` for the listed (index, location) pairs; `nodes` lists
     `(j, x_j)` for the functions that have a DOF location -/
